@@ -594,13 +594,14 @@ pub struct Printf {
     output_file: Option<File>,
 }
 
-fn write_blanks(out: &mut impl Write, mut count: usize) {
+fn write_blanks(out: &mut impl Write, mut count: usize) -> std::io::Result<()> {
     const BLANKS: [u8; 64] = [b' '; 64];
     while count > 0 {
         let n = count.min(BLANKS.len());
-        out.write_all(&BLANKS[..n]).unwrap();
+        out.write_all(&BLANKS[..n])?;
         count -= n;
     }
+    Ok(())
 }
 
 impl Printf {
@@ -611,11 +612,11 @@ impl Printf {
         })
     }
 
-    fn print(&self, file_info: &WalkEntry, mut out: impl Write) {
+    fn print(&self, file_info: &WalkEntry, mut out: impl Write) -> std::io::Result<()> {
         for component in &self.format.components {
             match component {
-                FormatComponent::Literal(literal) => write!(out, "{literal}").unwrap(),
-                FormatComponent::Flush => out.flush().unwrap(),
+                FormatComponent::Literal(literal) => write!(out, "{literal}")?,
+                FormatComponent::Flush => out.flush()?,
                 FormatComponent::Directive {
                     directive,
                     width,
@@ -627,16 +628,16 @@ impl Printf {
                             let padding = width.saturating_sub(content.chars().count());
                             match justify {
                                 Justify::Left => {
-                                    write!(out, "{content}").unwrap();
-                                    write_blanks(&mut out, padding);
+                                    write!(out, "{content}")?;
+                                    write_blanks(&mut out, padding)?;
                                 }
                                 Justify::Right => {
-                                    write_blanks(&mut out, padding);
-                                    write!(out, "{content}").unwrap();
+                                    write_blanks(&mut out, padding)?;
+                                    write!(out, "{content}")?;
                                 }
                             }
                         } else {
-                            write!(out, "{content}").unwrap();
+                            write!(out, "{content}")?;
                         }
                     }
                     Err(e) => {
@@ -650,15 +651,29 @@ impl Printf {
                 },
             }
         }
+        Ok(())
     }
 }
 
 impl Matcher for Printf {
     fn matches(&self, file_info: &WalkEntry, matcher_io: &mut MatcherIO) -> bool {
-        if let Some(file) = &self.output_file {
-            self.print(file_info, file);
+        let result = if let Some(file) = &self.output_file {
+            self.print(file_info, file)
         } else {
-            self.print(file_info, &mut *matcher_io.deps.get_output().borrow_mut());
+            self.print(file_info, &mut *matcher_io.deps.get_output().borrow_mut())
+        };
+        // a file (or standard output) that cannot be written to is an error, not a panic
+        if let Err(e) = result {
+            eprintln!(
+                "Error writing '{}': {}",
+                file_info.path().to_string_lossy(),
+                e
+            );
+            matcher_io.set_exit_code(1);
+            if e.kind() == std::io::ErrorKind::BrokenPipe {
+                // nobody is reading any more
+                matcher_io.quit();
+            }
         }
 
         true
